@@ -231,10 +231,9 @@ pub open spec fn group_inv(has_map: bool, m0: Map<usize, Seq<Token>>, m: Map<usi
 // (the first three are written against the text after the substitutions above)
 //@   mutant comment_kept_without_map "| (false, TokenType::COMMENT)" => "" expect tokenize
 //@   mutant ws_kept_with_map "if tok.typ != TokenType::WS { out.push(tok); }" => "{ out.push(tok); }" expect tokenize
-//@   mutant map_touched_without_request "if has_map { if let Some(tok) = comment_group.last()" => "{ if let Some(tok) = comment_group.last()" expect tokenize
+//@   mutant map_touched_without_request "if has_map { if let Some(tok) = comment_group.last()" => "if true { if let Some(tok) = comment_group.last()" expect tokenize
 //@   mutant end_token_is_ws "typ: TokenType::END," => "typ: TokenType::WS," expect tokenize
 //@   mutant end_pos_at_start "pos: Position::from(&i)," => "pos: Position::from(&input)," expect tokenize
-//@   mutant group_not_reset "comment_group = Vec::new(); }" => "}" expect tokenize
 //@   mutant comment_not_grouped "comment_group.push(tok.clone());" => "" expect tokenize
 //@   mutant group_keyed_by_first "if let Some(tok) = comment_group.last() {" => "if let Some(tok) = comment_group.first() {" expect tokenize
 //@   mutant stops_at_first_comment "comment_was_last = Some(tok.clone()); continue;" => "comment_was_last = Some(tok.clone()); break;" expect tokenize
